@@ -1110,11 +1110,6 @@ impl Cx {
             (Some(_), true) => "wrong-entry",
           };
           let didp = if u.frags[q.frag as usize].starts_with("did") { "+did-prefixed-fragment" } else { "" };
-          let scn = match sc {
-            None => "unscoped",
-            Some(0) => "verificationMethod",
-            Some(_) => "relationship",
-          };
           let show = |e: &Option<(Id, u32)>| e.map(|(i, t)| format!("{} [t={}]", u.s(i), t)).unwrap_or_else(|| "None".into());
           let case = self.case(
             env,
@@ -1128,7 +1123,7 @@ impl Cx {
           let sig = if !didp.is_empty() && kind == "missed" && q.form == "bare-fragment" {
             "I4-resolve-missed:bare-fragment-starting-with-did".to_string()
           } else {
-            format!("I4-resolve_method-{}:{}:{}{}", kind, scn, q.form, didp)
+            format!("I4-resolve_method-{}:{}", kind, if q.did.is_some() { "full-id" } else { "fragment-only" })
           };
           self.rep.violation(
             &sig,
@@ -1168,7 +1163,7 @@ impl Cx {
         let sig = if !didp.is_empty() && kind == "missed" && q.form == "bare-fragment" {
           "I4-resolve-missed:bare-fragment-starting-with-did".to_string()
         } else {
-          format!("I4-resolve_service-{}:{}{}", kind, q.form, didp)
+          format!("I4-resolve_service-{}:{}", kind, if q.did.is_some() { "full-id" } else { "fragment-only" })
         };
         self.rep.violation(
           &sig,
